@@ -48,7 +48,7 @@ def w_fuzz_job(profile, quick_runs, thorough_runs, workers_quick=4, workers_thor
         os.makedirs(corp, exist_ok=True)
         seeds = os.path.join(os.path.dirname(os.path.dirname(os.path.abspath(__file__))), "corpus", "W")
         c = [exe, "-runs=%d" % inst["runs"], "-max_len=1041", "-len_control=0", "-seed=%d" % seed, "-print_final_stats=0",
-             "-artifact_prefix=%s/fuzz%d-" % (rundir, inst["w"]), "-timeout=60", "-rss_limit_mb=4096", corp, seeds]
+             "-artifact_prefix=%s/fuzz%d-" % (rundir, inst["w"]), "-timeout=600", "-rss_limit_mb=4096", corp, seeds]
         return c, {"W_PROFILE": inst["profile"], "W_PROP": prop, "W_OUT": out, "W_FAILDIR": rundir, "W_COLD": "1" if inst["w"] % 2 else "0"}
     def replay(exe, prop, path):
         # replays are operation lists understood by the rapidcheck driver's --replay path
